@@ -2,22 +2,39 @@
 //! responses of different framing kinds (empty / non-empty, identity / chunked, HEAD, 204, 304) the next response
 //! starts exactly where the previous one ends.
 use verif_replay::*;
+/// a body source that hands out its data in pieces of at most `piece` bytes (a pipe, a socket, a decoder: `Read` allows short reads)
+struct Pieces { data: Vec<u8>, pos: usize, piece: usize }
+impl std::io::Read for Pieces {
+    fn read(&mut self, buf: &mut [u8]) -> std::io::Result<usize> {
+        let n = buf.len().min(self.piece).min(self.data.len() - self.pos);
+        buf[..n].copy_from_slice(&self.data[self.pos..self.pos + n]);
+        self.pos += n;
+        Ok(n)
+    }
+}
+fn body_of(i: usize, len: usize) -> Vec<u8> { (0..len).map(|j| (j * 31 + i * 7) as u8).collect() }
 fn main() {
     let server = tiny_http::Server::http("127.0.0.1:0").unwrap();
     let mut c = connect(&server);
     let kinds: Vec<(&str, u16, Option<usize>, usize, usize)> = vec![   // method, status, declared length, actual length, threshold
         ("GET", 200, Some(5), 5, 32768), ("GET", 200, Some(0), 0, 0), ("GET", 200, None, 7, 32768), ("GET", 200, Some(40), 40, 10),
         ("HEAD", 200, Some(5), 5, 32768), ("GET", 204, Some(0), 0, 32768), ("GET", 304, Some(3), 3, 32768), ("GET", 200, None, 0, 32768), ("HEAD", 200, None, 7, 32768), ("GET", 304, None, 3, 32768), ("HEAD", 200, Some(50), 50, 10), ("GET", 404, Some(2), 2, 32768),
+        // bodies that arrive from their source in short pieces (piece sizes cycle below), identity and chunked
+        ("GET", 200, Some(100000), 100000, usize::MAX), ("GET", 200, None, 100000, 0), ("GET", 200, Some(70001), 70001, 0), ("GET", 200, Some(9000), 9000, usize::MAX), ("GET", 200, None, 33, 32768),
     ];
+    let pieces = [usize::MAX, 1000, 7, 40000, 1, 4096];
     let mut msg = String::new();
     for (i, k) in kinds.iter().enumerate() { msg += &format!("{} /{} HTTP/1.1\r\nHost: a\r\n\r\n", k.0, i); }
     send(&mut c, msg.as_bytes());
-    for k in kinds.iter() {
+    // the client reads while the server answers: 280 KB of responses must not depend on the size of the socket buffers
+    let mut rc = c.try_clone().unwrap();
+    let reader = std::thread::spawn(move || read_available(&mut rc));
+    for (i, k) in kinds.iter().enumerate() {
         let rq = server.recv().unwrap();
-        let resp = tiny_http::Response::new(tiny_http::StatusCode(k.1), vec![], std::io::Cursor::new(vec![b'x'; k.3]), k.2, None).with_chunked_threshold(k.4);
+        let resp = tiny_http::Response::new(tiny_http::StatusCode(k.1), vec![], Pieces { data: body_of(i, k.3), pos: 0, piece: pieces[i % pieces.len()] }, k.2, None).with_chunked_threshold(k.4);
         let _ = rq.respond(resp);
     }
-    let out = read_available(&mut c);
+    let out = reader.join().unwrap();
     // parse the stream as a sequence of self-delimiting responses
     let mut pos = 0usize;
     let mut bad = None;
@@ -29,20 +46,26 @@ fn main() {
         pos += he + 4;
         let no_body = k.0 == "HEAD" || k.1 == 204 || k.1 == 304 || k.1 < 200;
         if no_body { continue; }
+        let mut got: Vec<u8> = Vec::new();
         if has_header_token(&head, "transfer-encoding", "chunked") {
             loop {
                 let r = &out[pos..];
                 let le = match r.windows(2).position(|w| w == b"\r\n") { Some(p) => p, None => { bad = Some(format!("response {}: chunk size line missing", i)); break } };
                 let n = usize::from_str_radix(String::from_utf8_lossy(&r[..le]).trim(), 16).unwrap_or(usize::MAX);
                 if n == usize::MAX { bad = Some(format!("response {}: bad chunk size {:?}", i, String::from_utf8_lossy(&r[..le]))); break; }
+                if pos + le + 2 + n + 2 > out.len() { bad = Some(format!("response {}: chunk runs past the end", i)); break; }
+                got.extend_from_slice(&out[pos + le + 2..pos + le + 2 + n]);
                 pos += le + 2 + n + 2;
-                if pos > out.len() { bad = Some(format!("response {}: chunk runs past the end", i)); break; }
                 if n == 0 { break; }
             }
             if bad.is_some() { break; }
         } else if let Some(l) = header_values(&head, "content-length").first().map(|v| v.parse::<usize>().unwrap_or(usize::MAX)) {
+            if l == usize::MAX || pos + l > out.len() { bad = Some(format!("response {}: Content-Length {} announced, only {} bytes follow", i, l, out.len() - pos)); break; }
+            got.extend_from_slice(&out[pos..pos + l]);
             pos += l;
         } else { bad = Some(format!("response {}: neither chunked nor content-length on a persistent connection", i)); break; }
+        // "... with exactly the body": the bytes delivered are the bytes of the source, whatever pieces it came in
+        if got != body_of(i, k.3) { bad = Some(format!("response {}: body of {} bytes delivered, the source had {} (pieces of {} bytes){}", i, got.len(), k.3, pieces[i % pieces.len()], if got.len() == k.3 { ", content differs" } else { "" })); break; }
     }
     if bad.is_none() && pos != out.len() { bad = Some(format!("{} stray bytes after the last response", out.len() as i64 - pos as i64)); }
     verdict(bad.is_none(), &format!("framing of {} consecutive responses: {}", kinds.len(), bad.unwrap_or_else(|| "each ends exactly where the next begins".into())));
